@@ -508,6 +508,7 @@ class Facts:
         self.crate = self.j['crate']
         self.bodies = [Body(b, self) for b in self.j['bodies']]
         self.by_id = {b.id: b for b in self.bodies}
+        self.promoted = {p['id']: Body(p, self) for p in self.j.get('promoted', [])}
         self.statics = self.j['statics']
         self.adts = self.j['adts']
         self.impls = self.j['impls']
